@@ -180,6 +180,7 @@ theorem safe_vAddQ (s a : Obj) (hro : s.ro = false) (hcls : s.cls.derivsOk = tru
   refine safe_bind _ (fun _ _ => ?_)
   refine safe_bind _ (fun _ hi => ?_)
   refine safe_bind _ (fun _ _ => ?_)
+  refine safe_bind _ (fun _ _ => ?_)
   refine safe_bind _ (fun nd hnd => ?_)
   refine safe_bind _ (fun _ hk => ?_)
   have hi' := (guard_ok _ _).1 hi
@@ -224,6 +225,7 @@ theorem safe_vMulQ (s a : Obj) (hro : s.ro = false) (hcls : s.cls.derivsOk = tru
   unfold vMulQ
   split
   · refine safe_bind _ (fun _ _ => ?_)
+    refine safe_bind _ (fun _ _ => ?_)
     refine safe_bind _ (fun _ _ => ?_)
     refine safe_bind _ (fun nd hnd => ?_)
     refine safe_bind _ (fun _ hk => ?_)
@@ -313,6 +315,7 @@ theorem safe_vFloorMod (fl : Bool) (s : Obj) (arg : Arg) : Safe s (vFloorMod fl 
   · refine safe_bind _ (fun a _ => ?_)
     split
     · refine safe_bind _ (fun _ _ => ?_)
+      refine safe_bind _ (fun _ _ => ?_)
       refine safe_bind _ (fun _ hk => ?_)
       apply safe_pure
       refine exec_values_then_frame s _ _ _ _ hk ?_
@@ -329,9 +332,11 @@ theorem safe_vLogic (s : Obj) (arg : Arg) : Safe s (vLogic s arg) := by
   split
   · refine safe_bind _ (fun _ _ => ?_)
     refine safe_bind _ (fun _ _ => ?_)
+    refine safe_bind _ (fun _ _ => ?_)
     refine safe_bind _ (fun _ hk => ?_)
     exact safe_pure _ _ (exec_values_then_frame s _ _ _ _ hk (by intro p hp; simp at hp; subst hp; rfl))
   · refine safe_bind _ (fun _ _ => ?_)
+    refine safe_bind _ (fun _ _ => ?_)
     refine safe_bind _ (fun _ _ => ?_)
     refine safe_bind _ (fun _ hk => ?_)
     exact safe_pure _ _ (exec_values_then_frame s _ _ _ _ hk (by intro p hp; simp at hp; subst hp; rfl))
